@@ -9,6 +9,8 @@ Variable value : Type.
 Variable is_none : value -> bool.
 Variable sg : signature value.
 Variable env : wenv.
+Variable veq : value -> value -> bool.
+Hypothesis NV : s_varpos sg = false.      (* functions without *args *)
 
 Notation param := (param value).
 Notation dict := (dict value).
@@ -25,11 +27,16 @@ Notation uitems := (uitems value is_none sg).
 Notation wc_ref := (wc_ref value is_none sg env).
 Notation tail_m := (tail_m value is_none sg env).
 Notation arrival := (arrival value sg).
-Notation vrun := (run value is_none rcfg rr sg env).
+Notation vrun := (run value is_none veq rcfg rr sg env).
 Notation observe := (observe value is_none sg).
 Notation norm := (norm value is_none).
 Notation final_equiv := (final_equiv value).
 Notation item_ok := (item_ok value).
+
+Lemma run_ref_nv : forall dc is_async c,
+  vrun dc is_async c =
+  (fst (wc_ref dc c), match snd (wc_ref dc c) with WOk r => observe (d_mode dc) r | WRaise e pn => FRaise e pn end).
+Proof. intros. now apply run_ref. Qed.
 
 (* ---------- small list facts ---------- *)
 Lemma mem_ext : forall l l', (forall n, In n l <-> In n l') -> forall n, mem n l = mem n l'.
@@ -116,7 +123,7 @@ Lemma final_equiv_of_results : forall dc dc' is_async c c',
   self_guard value sg dc c = true -> self_guard value sg dc' c' = true ->
   final_equiv (snd (vrun dc is_async c)) (snd (vrun dc' is_async c')).
 Proof.
-  intros dc dc' is_async c c' Hm S S' G1 G1'. rewrite !run_ref. cbn [snd].
+  intros dc dc' is_async c c' Hm S S' G1 G1'. rewrite !run_ref_nv. cbn [snd].
   destruct (snd (wc_ref dc c)) as [r|e pn] eqn:W; destruct (snd (wc_ref dc' c')) as [r'|e' pn'] eqn:W'.
   - destruct (S r W) as [r'' [X E]]. rewrite W' in X. injection X as <-. rewrite <- Hm.
     apply observe_deq; eauto using result_nodup, result_self_ok.
@@ -141,7 +148,7 @@ Proof.
   intros dc c xs A G. rewrite map_map. apply map_ext_in. intros [t [k w]] I. unfold ValidateGate.titem, sitem. cbn [fst snd].
   f_equal. destruct t; [apply step_m_true|].
   unfold ValidateGate.arrival in A. destruct (d_ignore_input dc); [injection A as <-; contradiction|].
-  destruct (bind_partial value sg (c_args c)); [|discriminate]. injection A as <-.
+  destruct (bind_partial value sg (c_args c)) as [[bound star]|e0]; [|discriminate]. injection A as <-.
   apply in_app_or in I. destruct I as [I|I]; apply in_map_iff in I; destruct I as [kw [E I]]; [|discriminate].
   injection E as ->. unfold self_guard in G. apply andb_true_iff in G. destruct G as [G _].
   apply andb_true_iff in G. destruct G as [G _]. apply negb_true_iff, mem_false in G.
@@ -288,7 +295,7 @@ Proof.
   unfold unknown_key in U. apply existsb_exists in U. destruct U as [[k w] [I U]]. cbn [fst] in U.
   apply negb_true_iff in U.
   assert (K : In k (keys r)) by (unfold keys; change k with (fst (k, w)); now apply in_map).
-  destruct (result_keys _ _ _ _ _ _ _ _ W K) as [[_ [K'|K']]|K'].
+  destruct (result_keys _ _ _ _ _ NV _ _ _ W K) as [[_ [K'|K']]|K'].
   - rewrite (all_in_sig_In _ _ _ _ N2 K') in U. discriminate.
   - rewrite (pos_name_sig_has _ _ _ K') in U. discriminate.
   - unfold declared in K'. apply existsb_exists in K'. destruct K' as [p [Ip E]]. apply Nat.eqb_eq in E. subst k.
@@ -299,9 +306,9 @@ Theorem args_equals_kwargs : forall dc is_async c,
   self_guard value sg dc c = true ->
   snd (vrun (with_mode dc ARGS) is_async c) = snd (vrun (with_mode dc KWARGS_WITH_NONE) is_async c).
 Proof.
-  intros dc is_async c G. rewrite !run_ref, !wc_ref_mode. cbn [snd with_mode d_mode].
+  intros dc is_async c G. rewrite !run_ref_nv, !wc_ref_mode. cbn [snd with_mode d_mode].
   destruct (snd (wc_ref dc c)) as [r|e pn] eqn:W; [|reflexivity].
-  assert (ND := result_nodup _ _ _ _ _ _ _ W). assert (SO := result_self_ok _ _ _ _ _ _ _ G W).
+  assert (ND := result_nodup _ _ _ _ _ _ _ W). assert (SO := result_self_ok _ _ _ _ _ NV _ _ G W).
   rewrite !observe_normal by assumption. reflexivity.
 Qed.
 
@@ -355,9 +362,9 @@ Theorem kwargs_without_none : forall dc is_async c,
   without_none_relation (snd (vrun (with_mode dc KWARGS_WITH_NONE) is_async c))
                         (snd (vrun (with_mode dc KWARGS_WITHOUT_NONE) is_async c)).
 Proof.
-  intros dc is_async c G N. rewrite !run_ref, !wc_ref_mode. cbn [snd with_mode d_mode].
+  intros dc is_async c G N. rewrite !run_ref_nv, !wc_ref_mode. cbn [snd with_mode d_mode].
   destruct (snd (wc_ref dc c)) as [r|e pn] eqn:W; [|reflexivity].
-  assert (ND := result_nodup _ _ _ _ _ _ _ W). assert (SO := result_self_ok _ _ _ _ _ _ _ G W).
+  assert (ND := result_nodup _ _ _ _ _ _ _ W). assert (SO := result_self_ok _ _ _ _ _ NV _ _ G W).
   rewrite !observe_normal by assumption.
   cbn [ValidateBind.norm]. set (r' := filter (notnone value is_none) r).
   assert (U := names_fit_unknown _ _ _ N W).
@@ -477,7 +484,7 @@ Proof. intros A B [j [a|x pn]] f g H; simpl; [now rewrite (H a eq_refl) | reflex
 Theorem external_unused_when_supplied : forall is_async c w,
   caller_gives value sg dc c n w -> declared value dc n = true -> vrun dc' is_async c = vrun dc is_async c.
 Proof.
-  intros is_async c w Gv D. rewrite !run_ref. cbn [dc' replace_ext d_mode].
+  intros is_async c w Gv D. rewrite !run_ref_nv. cbn [dc' replace_ext d_mode].
   assert (E : wc_ref dc' c = wc_ref dc c); [|now rewrite E].
   destruct (arrival dc c) as [xs|] eqn:A.
   - assert (A' : arrival dc' c = Some xs) by exact A.
@@ -491,11 +498,11 @@ Proof.
     unfold ValidateRef.uitems. rewrite map_map. apply map_ext_in. intros p Ip.
     rewrite G_name. f_equal. unfold G. destruct (Nat.eqb (p_name p) n) eqn:Q; [|reflexivity].
     exfalso. apply Nat.eqb_eq in Q. apply unused_In in Ip. destruct Ip as [_ Ip]. apply Ip, In_useds. rewrite Q.
-    split; [|assumption]. destruct (gives_arrival _ _ _ _ _ _ _ A Gv) as [x [Ix Ex]].
+    split; [|assumption]. destruct (gives_arrival _ _ _ NV _ _ _ _ A Gv) as [x [Ix Ex]].
     rewrite (item_ok_keys _ _ _ S), map_map. apply in_map_iff. exists x. split; [|assumption].
     unfold ValidateGate.titem. cbn [fst]. now rewrite Ex.
   - destruct Gv as [Ig Gv]. unfold ValidateGate.arrival in A. unfold ValidateRef.wc_ref. cbn [dc' replace_ext d_ignore_input].
-    rewrite Ig in *. destruct (bind_partial value sg (c_args c)); [discriminate|].
+    rewrite Ig in *. destruct (bind_partial value sg (c_args c)) as [[bound star]|e0]; [discriminate|].
     replace (aitems value is_none dc' false (c_kwargs c)) with (aitems value is_none dc false (c_kwargs c)); [reflexivity|].
     unfold aitems. apply map_ext. intro kw. now rewrite step_m_replace.
 Qed.
@@ -506,7 +513,7 @@ End ReplaceExt.
 Theorem ignore_input_ignores : forall dc is_async c,
   d_ignore_input dc = true -> vrun dc is_async c = vrun dc is_async {| c_args := []; c_kwargs := [] |}.
 Proof.
-  intros dc is_async c H. rewrite !run_ref. unfold ValidateRef.wc_ref. now rewrite H.
+  intros dc is_async c H. rewrite !run_ref_nv. unfold ValidateRef.wc_ref. now rewrite H.
 Qed.
 
 (* ---------- what the body sees for one name ---------- *)
@@ -516,7 +523,7 @@ Theorem body_binding : forall dc is_async c j b,
   exists r, snd (wc_ref dc c) = WOk r /\ NoDup (keys r) /\
             forall n, dget n b = bound_val value sg (norm (d_mode dc) r) n.
 Proof.
-  intros dc is_async c j b G H. destruct (run_body_inv _ _ _ _ _ _ _ _ _ H) as [r [W O]].
+  intros dc is_async c j b G H. destruct (run_body_inv _ _ _ _ _ NV _ _ _ _ _ H) as [r [W O]].
   exists r. assert (ND := result_nodup _ _ _ _ _ _ _ W). repeat split; try assumption.
   rewrite observe_normal in O by eauto using result_self_ok.
   destruct (pyb value sg (norm (d_mode dc) r)) as [b'|x] eqn:P; [|discriminate].
@@ -560,7 +567,7 @@ Theorem missing_sig_default_reaches_body : forall dc is_async c j b p d,
 Proof.
   intros dc is_async c j b p d G ND H I Abs Hv Sd.
   destruct (body_binding _ _ _ _ _ G H) as (r & W & NDr & B). rewrite B.
-  assert (R := missing_result _ _ _ _ _ _ _ _ _ ND W I Abs Hv).
+  assert (R := missing_result _ _ _ _ _ NV _ _ _ _ ND W I Abs Hv).
   destruct (d_mode dc) eqn:Md; try (now apply bound_val_some).
   cbn [ValidateBind.norm]. destruct (is_none d) eqn:Nn.
   - unfold bound_val. rewrite dget_notnone, R, Nn by assumption. rewrite sig_default_find in Sd.
@@ -583,13 +590,13 @@ Proof.
   intros dc is_async c j b p G ND H I Abs NE.
   assert (C := missing_cascade value is_none sg p NE).
   destruct (spec_required value p) eqn:Rq.
-  - exfalso. destruct (missing_value_no_body value is_none sg env dc is_async c p I Abs NE (or_introl Rq)) as [x [pn X]].
+  - exfalso. destruct (missing_value_no_body value is_none sg env dc NV veq is_async c p I Abs NE (or_introl Rq)) as [x [pn X]].
     rewrite H in X. discriminate.
   - split; [reflexivity|]. destruct (p_default p) as [d|] eqn:D.
     + intro K. eapply missing_reaches_body; try eassumption. now rewrite C.
     + destruct (sig_default value sg (p_name p)) as [d|] eqn:S.
       * exists d. split; [reflexivity|]. eapply missing_sig_default_reaches_body; try eassumption. now rewrite C.
-      * exfalso. destruct (missing_value_no_body value is_none sg env dc is_async c p I Abs NE (or_intror (conj D S))) as [x [pn X]].
+      * exfalso. destruct (missing_value_no_body value is_none sg env dc NV veq is_async c p I Abs NE (or_intror (conj D S))) as [x [pn X]].
         rewrite H in X. discriminate.
 Qed.
 
@@ -615,7 +622,7 @@ Lemma arrival_some : forall dc c, d_ignore_input dc = false ->
   List.length (c_args c) <= List.length (pos_params value sg) ->
   exists xs, arrival dc c = Some xs /\ map snd xs = named_assignment c.
 Proof.
-  intros dc c Ig L. unfold ValidateGate.arrival, bind_partial. rewrite Ig.
+  intros dc c Ig L. unfold ValidateGate.arrival, bind_partial. rewrite Ig, NV.
   replace (Nat.ltb (List.length (pos_params value sg)) (List.length (c_args c))) with false
     by (symmetry; now apply Nat.ltb_ge).
   eexists. split; [reflexivity|]. rewrite map_app, !map_map. cbn [snd]. now rewrite !map_id.
